@@ -231,7 +231,7 @@ def verify(
 ) -> bool:
     assert r in range(1, N), "r out of range [1, N)"
     assert s in range(1, N), "s out of range [1, N)"
-    u1 = div_mod_p(digest, s, p=N)
+    u1 = div_mod_p(digest % N, s, p=N)
     u2 = div_mod_p(r, s, p=N)
     x, y = point_add(point_scalar_mul(u1, G), point_scalar_mul(u2, point))
     assert point_is_on_curve(x, y), "point is not on curve"
